@@ -40,6 +40,9 @@ def check(run):
         linspace_rules(run, F)
         collectors(run, F)
         try_collectors(run, F, cfg)
+    # the buffers every kernel writes into / every collector returns are the backends' own, of the requested size
+    from common import dep_alloc as _dep_alloc
+    _dep_alloc(run, polars=False)
     return run.finish(
         'other',
         'Linspace is an exact-size state machine (k = len - index, decremented per item from '
